@@ -836,7 +836,7 @@ class RsInterp:
                 if self.ctx.branch(TLs.is_('tnil', recv.t), 'stack empty'):
                     return None
                 return ('Some', SV(TLs.get('tcons', 'thd', recv.t), 'term'))
-            if m in ('position', 'find', 'any', 'all') and k == 'idl':
+            if m in ('position', 'rposition', 'find', 'any', 'all') and k == 'idl':
                 return self.list_hof(recv, m, self.deref(args[0]))
         if isinstance(recv, tuple) and recv and recv[0] == 'take' and m == 'for_each':
             return self.take_for_each(recv[1], recv[2], self.deref(args[0]), env)
@@ -850,7 +850,7 @@ class RsInterp:
                 return SV(lst, 'idl')
         if isinstance(recv, RIter) and m == 'next':
             return self.iter_next(recv)
-        if isinstance(recv, RIter) and m in ('position', 'find', 'any', 'all'):
+        if isinstance(recv, RIter) and m in ('position', 'rposition', 'find', 'any', 'all'):
             return self.list_hof(recv.rest, m, self.deref(args[0]))
         raise Unsupported(f'method {m} on {recv!r}')
 
@@ -866,14 +866,14 @@ class RsInterp:
         if not (isinstance(res, SV) and res.kind == 'bool'):
             raise Unsupported(f'{m}: closure result {res!r}')
         c = z3.simplify(res.t)
-        if m == 'position':
-            # |&x| x == e   (e independent of x)  ->  Some(index_of(e)) if e in list else None
+        if m in ('position', 'rposition'):
+            # |&x| x == e   (e independent of x)  ->  Some(index of the first / last e) if e in list else None
             if z3.is_eq(c):
                 a, b = c.arg(0), c.arg(1)
                 other = b if a.eq(x.t) else (a if b.eq(x.t) else None)
                 if other is not None and not _occurs(x.t, other):
                     if self.ctx.branch(spec.mem(other, lst.t), 'position: found'):
-                        return ('Some', SV(spec.il_index(lst.t, other), 'int'))
+                        return ('Some', SV((spec.il_index if m == 'position' else spec.il_rindex)(lst.t, other), 'int'))
                     return None
             raise Unsupported('position with a closure that is not an equality test')
         hook = self.opts.get('hof')
